@@ -130,6 +130,7 @@ FIXED = {
  "fs:complete-missing-part-internal-error": "0096ef4", "fs:failed-complete-consumes-upload": "0096ef4",
  "fs:unknown-upload-code": "4609ab3", "fs:list-parts-unknown-upload": "4609ab3",
  "fs:part-number-not-validated": "205d9a8",
+ "fs:part-copy-range-unchecked": "814bd03",
  "fs:stale-checksum-after-complete": "47e9b00", "fs:stale-metadata-after-complete": "47e9b00",
  "fs:complete-into-missing-bucket": "9bdb75f",
  "fs:stale-checksum-after-copy": "8faafe7", "fs:stale-metadata-after-copy": "8faafe7",
@@ -142,6 +143,7 @@ BEFORE = {"fs:head-missing-key-code", "fs:delete-missing-key-error", "fs:missing
           "fs:delete-objects-in-missing-bucket", "fs:head-without-etag",
           "fs:complete-missing-part-internal-error", "fs:failed-complete-consumes-upload",
           "fs:unknown-upload-code", "fs:list-parts-unknown-upload", "fs:part-number-not-validated",
+          "fs:part-copy-range-unchecked",
           "fs:stale-checksum-after-complete", "fs:stale-metadata-after-complete",
           "fs:complete-into-missing-bucket",
           "fs:stale-checksum-after-copy", "fs:stale-metadata-after-copy",
